@@ -2,7 +2,8 @@
 (* Histories recorded from real signer objects (every signer class, longer than the exhaustive
    bound, more locators) must be behaviours of NdnPacketsCertHist with DevCache = FALSE.
    record: [init, ev: <<[a |-> "SetLocator", l], [a |-> "SignData"], [a |-> "Issue", fn, kl]>>]
-   kl = identifier of the locator found in the certificate (0 = none of the configured ones).  *)
+   kl = identifier of the locator found in the certificate (0 = none of the configured ones);
+   every event carries after = identifier of the locator configured in the signer object after the step.  *)
 EXTENDS NdnPacketsCertHist, Json, IOUtils, TLCExt
 Traces == ndJsonDeserialize(IOEnv.TRACE_FILE)
 VARIABLES tid, l
@@ -11,9 +12,10 @@ Tr == Traces[tid].ev
 Max2(a, b) == IF a > b THEN a ELSE b
 TInit == tid \in 1..Len(Traces) /\ l = 1 /\ InitWith(Traces[tid].init) /\ TLCSet(tid, 1)
 Ev(a) == l <= Len(Tr) /\ Tr[l].a = a /\ l' = l + 1 /\ UNCHANGED tid
-TSet == Ev("SetLocator") /\ SetLocator(Tr[l].l)
-TData == Ev("SignData") /\ SignData
-TIssue == Ev("Issue") /\ Issue(Tr[l].fn) /\ issued'[Len(issued')].kl = Tr[l].kl
+After == loc' = Tr[l].after
+TSet == Ev("SetLocator") /\ SetLocator(Tr[l].l) /\ After
+TData == Ev("SignData") /\ SignData /\ After
+TIssue == Ev("Issue") /\ Issue(Tr[l].fn) /\ issued'[Len(issued')].kl = Tr[l].kl /\ After
 TNext == TSet \/ TData \/ TIssue
 TSpec == TInit /\ [][TNext]_tvars
 Mark == TLCSet(tid, Max2(TLCGet(tid), l))
